@@ -13,6 +13,8 @@
 pub struct Scalar { _p: [u64; 4] }
 impl Clone for Scalar { #[verifier::external_body] fn clone(&self) -> (r: Self) ensures r == *self { unimplemented!() } }
 impl Copy for Scalar {}
+#[verifier::external]
+impl core::fmt::Debug for Scalar { fn fmt(&self, f: &mut core::fmt::Formatter<'_>) -> core::fmt::Result { unimplemented!() } }
 
 pub uninterp spec fn s_add(a: Scalar, b: Scalar) -> Scalar;
 pub uninterp spec fn s_mul(a: Scalar, b: Scalar) -> Scalar;
@@ -101,6 +103,8 @@ pub struct @T@ { _p: [u64; @W@] }
 impl Clone for @T@ { #[verifier::external_body] fn clone(&self) -> (r: Self) ensures r == *self { unimplemented!() } }
 impl Copy for @T@ {}
 impl Group for @T@ { type Scalar = Scalar; }
+#[verifier::external]
+impl core::fmt::Debug for @T@ { fn fmt(&self, f: &mut core::fmt::Formatter<'_>) -> core::fmt::Result { unimplemented!() } }
 
 impl<R: SLike> MulSpecImpl<R> for @T@ {
     open spec fn obeys_mul_spec() -> bool { true }
@@ -174,3 +178,7 @@ pub type G2Affine = G2Projective;
 pub assume_specification<T: ?Sized, A: core::alloc::Allocator>
     [<std::boxed::Box<T, A> as core::convert::AsRef<T>>::as_ref] (b: &std::boxed::Box<T, A>) -> (r: &T)
     ensures r == &**b;
+
+// reflexive conversion `T -> T` (affine/projective forms are one type here)
+pub assume_specification<T>[<T as core::convert::From<T>>::from](t: T) -> (r: T)
+    ensures r == t;
